@@ -120,7 +120,7 @@ def main():
     # the tie by translation: _check_message_flags regenerated from the current lib/check/__init__.py and proved equal to the model (Props/C16Tie.lean)
     tie_ok = common.prove_tie(chk, 'I18n.Props.C16Tie', ('msgchk',),
                               'Checker._check_message_flags regenerated from the current lib/check/__init__.py is no longer proved equal to '
-                              'Msg.checkMessageFlags (generated_check_message_flags_eq_model and its corollaries)')
+                              'Msg.checkMessageFlags (generated_check_message_flags_eq_model and its corollaries), or the regenerated check_messages no longer agrees with the model on the witness files')
     problems = ' '.join(chk.lean.problems)
     driver_ok = os.path.exists(common.driver_path()) and not any('untranslatable' in s for s in chk.lean.translation.values()) \
         and 'Driver' not in problems and 'I18n.Model' not in problems and 'I18n.Generated' not in problems
@@ -153,6 +153,10 @@ def main():
         lines = [M.check_line(ctx, entries) for ctx, entries in cases]
         outs = [r[0] for r in results]
         dis, _ = chk.stream('check-messages', lines, outs)
+        # the same through check_messages REGENERATED from the source (Generated.MsgChk; runs that end in an exception are left out: the
+        # regenerated method loses the emissions before it)
+        gi = [i for i, o in enumerate(outs) if '!' not in o]
+        chk.stream('check-messages-generated', [lines[i].replace('msg check ', 'msg gcheck ', 1) for i in gi], [outs[i] for i in gi])
         dis_cases = [cases[i] for i in dis]
         chk.note_cases(set(outs))
         hist = collections.Counter()
@@ -356,7 +360,9 @@ def main():
 EXPLANATION = (
     'TIE BY TRANSLATION (Props/C16Tie.lean): Checker._check_message_flags is regenerated from the current source on every run (msgchk2lean.py) and proved equal, for all '
     'entries, to Msg.checkMessageFlags (generated_check_message_flags_eq_model, live_env_is_source, message_flags_eq_generated, check_message_flags_total_generated); the '
-    'regenerated method also runs against the real code in the check-message-flags-generated stream. check_messages itself is not translated (correspondence only). '
+    'regenerated method also runs against the real code in the check-message-flags-generated stream. check_messages is regenerated as well; its equality with the model is '
+    'OUTSTANDING for all inputs - discharged: kernel-evaluated equality with the model and the rule set on 15 witness files (…_on_witnesses, witnesses_cover_tags) and the '
+    'check-messages-generated stream against the real code. '
     'Proved in Lean for ALL entry lists, contexts and sane environments (Props/C16.lean): message_tags_eq / check_messages_eq (the imperative model of check_messages with its '
     'accumulators msgid_counter and found_unusual_characters, of _check_message_flags and of the XML gate = the rule set Spec.MessageRules, per entry and file-level, with extras and order), '
     'message_flags_eq, trace_at, and one theorem per tag read off the rule set: duplicate_message_definition_iff, duplicate_message_definition_file_iff, empty_file_iff / empty_file_po_iff, translation_in_template_iff, '
